@@ -306,6 +306,48 @@ impl<'tcx> Cx<'tcx> {
                                     }
                                 }
                             }
+                            // reference to a promoted struct whose fields are all scalars (e.g. a constant RangeInclusive<u8>)
+                            if let ty::Adt(def, gargs) = pointee.kind() {
+                                if def.is_struct() {
+                                    let typing_env = TypingEnv::fully_monomorphized();
+                                    if let Ok(layout) = tcx.layout_of(typing_env.as_query_input(*pointee)) {
+                                        let base = ptr.into_raw_parts().1.bytes() as usize;
+                                        let a = alloc.inner();
+                                        let mut fields = String::new();
+                                        let mut ok = true;
+                                        for (i, fd) in def.non_enum_variant().fields.iter().enumerate() {
+                                            let fty = fd.ty(tcx, gargs);
+                                            if !(fty.is_integral() || fty.is_bool() || fty.is_char()) {
+                                                ok = false;
+                                                break;
+                                            }
+                                            if let Ok(fl) = tcx.layout_of(typing_env.as_query_input(fty)) {
+                                                let fsize = fl.size.bytes() as usize;
+                                                let foff = base + layout.fields.offset(i).bytes() as usize;
+                                                if fsize == 0 || fsize > 16 || foff + fsize > a.len() {
+                                                    ok = false;
+                                                    break;
+                                                }
+                                                let bytes = a.inspect_with_uninit_and_ptr_outside_interpreter(foff..foff + fsize);
+                                                let mut v: u128 = 0;
+                                                for (bi, b) in bytes.iter().enumerate() {
+                                                    v |= (*b as u128) << (8 * bi);
+                                                }
+                                                if !fields.is_empty() {
+                                                    fields.push(',');
+                                                }
+                                                let _ = write!(fields, "{{\"n\":{},\"v\":\"{}\",\"bits\":{}}}", esc(fd.name.as_str()), v, if fty.is_bool() { 1 } else { fsize * 8 });
+                                            } else {
+                                                ok = false;
+                                                break;
+                                            }
+                                        }
+                                        if ok && !fields.is_empty() {
+                                            out = format!("{{\"ref_struct\":[{}],\"path\":{}}}", fields, esc(&tcx.def_path_str(def.did())));
+                                        }
+                                    }
+                                }
+                            }
                         }
                         out
                     }
